@@ -848,10 +848,32 @@ def run_op(M: Machine, step: int, op: dict) -> str | None:
         if ca.cls != cb.cls or ca.cls not in ("SphericalDroplet", "DiffuseDroplet") \
                 or _lay(ca.rec) != _lay(cb.rec) or ca.radius + cb.radius <= 0:
             return "not mergeable"
+        ra, rb, dim = ca.radius, cb.radius, ca.dim
+        pa, pb = np.array(ca.rec["position"], dtype=float), np.array(cb.rec["position"], dtype=float)
+        wa = float(ca.rec["interface_width"]) if ca.cls == "DiffuseDroplet" else None
+        wb = float(cb.rec["interface_width"]) if cb.cls == "DiffuseDroplet" else None
         ok, res = sut(lambda: da.merge(db, inplace=op["inplace"]))
         if not ok:
             unexpected(res)
             return None
+        # the list model's merged member: volumes add, the centre is the volume-weighted mean,
+        # the width is the mean of the two widths
+        va, vb = vol(ra, dim), vol(rb, dim)
+        want_r = (ra ** dim + rb ** dim) ** (1.0 / dim)
+        want_p = (va * pa + vb * pb) / (va + vb)
+        got = np.array(res.data)
+        scale = max(1.0, float(np.max(np.abs(np.r_[pa, pb]))), want_r)
+        if not close(float(got["radius"]), want_r, 1e-12) or \
+                float(np.max(np.abs(np.array(got["position"], dtype=float) - want_p))) > 1e-12 * scale:
+            M.viol("C20.O1", f"step {step}: merging members gave radius {float(got['radius'])!r}, "
+                   f"position {np.array(got['position']).tolist()} instead of radius {want_r!r}, "
+                   f"position {want_p.tolist()} (radii {ra}, {rb}, inplace={op['inplace']})",
+                   op=k, kind="merge_value")
+        if wa is not None and not (math.isnan(wa) or math.isnan(wb)):
+            if not close(float(got["interface_width"]), (wa + wb) / 2, 1e-12):
+                M.viol("C20.O1", f"step {step}: merging members gave interface width "
+                       f"{float(got['interface_width'])!r}, not the mean of {wa} and {wb}",
+                       op=k, kind="merge_width")
         if op["inplace"]:
             if res is not da:
                 M.viol("C20.O1", f"step {step}: in-place merge did not return the droplet itself",
